@@ -122,6 +122,7 @@ Section Bridge.
       - destruct (ns_one_keeps ns r0 r1 ltac:(assumption) Hone) as [A B]. split; [exact A|congruence]. }
     rewrite (drop_empties_nonempty m1) in H by (eapply Forall_impl; [|exact Hm1]; intros r [A _]; exact A).
     rewrite (mapM_hash_id m1) in H by (eapply Forall_impl; [|exact Hm1]; intros r [_ B]; exact B). cbn [bind] in H.
+    destruct (hash_check m1) as [[]| | |]; cbn [bind] in H; try discriminate.
     destruct pipe_rules as [rules| | |] eqn:ER; cbn [bind] in H; try discriminate.
     destruct (nameref_transform pipe_cs nonstr rules m1) as [m2| | |] eqn:EN; cbn [bind] in H; try discriminate.
     destruct (ignore_local m2) as [m2l| | |] eqn:EL; cbn [bind] in H; try discriminate.
